@@ -1,7 +1,116 @@
 import H5V.Proto
-/- engine `xmlser` (stub) -/
+import H5V.Model.XmlTB
+import H5V.Model.XmlTBDriver
+import H5V.Model.XmlSer
+/- engine `xmlser` — see harness/src/engines/xmlser.rs.
+   `tree <dump>`: the document children in the dump syntax of engine `xmltb`; output
+   `ser=<text>;err=<codes>;tree=<dump>` where err/tree come from running the tree-builder model on the
+   assumed lexing (`lexAll`) of the serializer model's events.  `src` mode has no model (`no-model`). -/
 namespace H5V.Model.XmlSerDriver
+open H5V.Proto H5V.Model.XmlTB H5V.Model.XmlSer H5V.Model.XmlTBDriver
 
-def runCase (_fields : List String) : String := "unimplemented"
+def isWordChar (c : Char) : Bool :=
+  ('0' ≤ c && c ≤ '9') || ('a' ≤ c && c ≤ 'f') || c == '.' || c == '-' || c == '~'
+
+def takeWord (s : List Char) : String × List Char :=
+  (String.ofList (s.takeWhile isWordChar), s.dropWhile isWordChar)
+
+def expect (lit : List Char) (s : List Char) : Option (List Char) :=
+  if lit.isPrefixOf s then some (s.drop lit.length) else none
+
+def pStr (s : List Char) : Option (Str × List Char) :=
+  let (w, rest) := takeWord s
+  (undhex? w).map (fun x => (x, rest))
+
+def pName (s : List Char) : Option (QName × List Char) := do
+  let (w, s) := takeWord s
+  let p ← undhexOpt? w
+  let s ← expect [':'] s
+  let (ns, s) ← pStr s
+  let s ← expect [':'] s
+  let (l, s) ← pStr s
+  pure (⟨p, ns, l⟩, s)
+
+def pAttrs : Nat → List Char → Option (List Attr × List Char)
+  | 0, _ => none
+  | fuel + 1, s =>
+    match s with
+    | ' ' :: s => do
+      let (n, s) ← pName s
+      let s ← expect ['='] s
+      let (v, s) ← pStr s
+      let (as, s) ← pAttrs fuel s
+      pure (⟨n, v⟩ :: as, s)
+    | _ => some ([], s)
+
+mutual
+def pNode : Nat → List Char → Option (Node × List Char)
+  | 0, _ => none
+  | fuel + 1, s =>
+    match s with
+    | 't' :: '[' :: s => do
+      let (t, s) ← pStr s
+      let s ← expect [']'] s
+      pure (.text t, s)
+    | 'c' :: '[' :: s => do
+      let (t, s) ← pStr s
+      let s ← expect [']'] s
+      pure (.comment t, s)
+    | 'p' :: '[' :: s => do
+      let (t, s) ← pStr s
+      let s ← expect [':'] s
+      let (d, s) ← pStr s
+      let s ← expect [']'] s
+      pure (.pi t d, s)
+    | 'd' :: '[' :: s => do
+      let (n, s) ← pStr s
+      let s ← expect [':'] s
+      let (p, s) ← pStr s
+      let s ← expect [':'] s
+      let (sy, s) ← pStr s
+      let s ← expect [']'] s
+      pure (.doctype n p sy, s)
+    | 'e' :: '[' :: s => do
+      let (n, s) ← pName s
+      let (as, s) ← pAttrs (fuel + 1) s
+      let s ← expect [']', '('] s
+      let (ks, s) ← pNodes fuel s
+      let s ← expect [')'] s
+      pure (.elem n as ks, s)
+    | _ => none
+def pNodes : Nat → List Char → Option (List Node × List Char)
+  | 0, _ => none
+  | fuel + 1, s =>
+    match s with
+    | [] => some ([], [])
+    | ')' :: _ => some ([], s)
+    | _ => do
+      let (n, s) ← pNode fuel s
+      let (ns, s) ← pNodes fuel s
+      pure (n :: ns, s)
+end
+
+def parseDump? (d : String) : Option (List Node) :=
+  if d == "-" then some [] else
+  match pNodes (d.length + 2) d.toList with
+  | some (ns, []) => some ns
+  | _ => none
+
+def runTree (dump : String) : String :=
+    match parseDump? dump with
+    | some doc =>
+      let evs := serDoc SerCfg.code doc
+      let ser := dhex (render SerCfg.code evs)
+      match run TbCfg.code State.init (lexAll SerCfg.code LexCfg.code evs) with
+      | .ok s => "ser=" ++ ser ++ ";" ++ dumpState s
+      | .error e => "ser=" ++ ser ++ ";PANIC " ++ e
+    | none => "bad-case"
+
+def runCase (fields : List String) : String :=
+  match fields with
+  | ["tree", dump] => runTree dump
+  | ["tree", dump, _flag] => runTree dump
+  | ["src", _] => "no-model"
+  | _ => "bad-case"
 
 end H5V.Model.XmlSerDriver
